@@ -433,6 +433,10 @@ func runC02(p *core.Prog, r *core.Report) {
 	r.Guard("C02.R7", "selectors", "combiner classification", func() { checkSelectors(p, r) })
 	r.Guard("C02.R8", "Merge/key-set", "every key of the partial is merged", func() { checkMergeKeySet(p, r) })
 
+	r.Guard("C02.R4", "in-place", "store values are never written in place", func() { checkNoInPlaceMutation(p, r, "C02.R4") })
+	r.Guard("C02.R3", "visits-all", "no silent truncation", func() {
+		checkNoSilentTruncation(p, r, "C02.R3", []loopSite{{pkgStore, "baseStore.Merge", nil}})
+	})
 	r.MinInstances("C02.R1", 22*4)
 	r.MinInstances("C02.R2", 20)
 	r.MinInstances("C02.R3", 4)
